@@ -598,6 +598,30 @@ def check(idx: Index, rep: Report, tier: str) -> str:
         r5.fail(hf.fq, Finding("C03.R5", hf.fq, "hash-not-subset", f"__hash__ reads {sorted(extra)} which __eq__ does not compare: equal keys may hash differently", hf.loc))
     else:
         r5.ok(hf.fq, f"{hf.loc} hash reads {sorted(hr)} ⊆ eq reads")
+    # a dictionary-valued field enters the hash in a form that does not depend on insertion order (__eq__ compares the
+    # dictionaries with ==, which ignores order)
+    from ..astutil import parent_map as _pm5
+
+    pm5 = _pm5(hf.node)
+    ordered = None
+    for n in ast.walk(hf.node):
+        if isinstance(n, ast.Attribute) and n.attr in ("attributes", "properties"):
+            up, q = [], n
+            while id(q) in pm5:
+                q = pm5[id(q)]
+                up.append(q)
+            calls_up = [unparse(u.func) for u in up if isinstance(u, ast.Call) and not (isinstance(u.func, ast.Attribute) and u.func.attr in ("items", "keys", "values"))]
+            comp_up = [u for u in up if isinstance(u, (ast.GeneratorExp, ast.ListComp, ast.SetComp))]
+            # order-independent wrappers seen on the way up: sum(...), frozenset(...), sorted(...), set(...)
+            if any(c in ("sum", "frozenset", "sorted", "set", "len") for c in calls_up) or any(isinstance(u, ast.SetComp) for u in comp_up):
+                continue
+            if any(c in ("tuple", "list", "str", "repr", "hash") for c in calls_up) or any(isinstance(u, ast.Tuple) for u in up):
+                ordered = n
+                break
+    if ordered is not None:
+        r5.fail(hf.fq + ":order", Finding("C03.R5", hf.fq, f"hash-order-dependent:{ordered.attr}", f"__hash__ takes the entries of `{unparse(ordered)}` in insertion order, while __eq__ compares the dictionaries with == (order ignored) and also requires equal hashes: two operations whose {ordered.attr} were filled in a different order are structurally equivalent but get different keys, so CSE keeps both", hf.loc))
+    else:
+        r5.ok(hf.fq + ":order", f"{hf.loc} dictionary fields enter the hash in an order-independent form")
     cse_fields = {"name": "val", "attributes": "val", "properties": "val", "operands": "val", "result_types": "val", "regions": "seq"}
     cse_exprs = {"name": ("self.name", "other.name"), "attributes": ("self.op.attributes", "other.op.attributes"), "properties": ("self.op.properties", "other.op.properties"),
                  "operands": ("self.op.operands", "other.op.operands"), "result_types": ("self.op.result_types", "other.op.result_types"), "regions": ("self.op.regions", "other.op.regions")}
